@@ -465,6 +465,9 @@ func (i *Lifecycler) ClaimTokensFor(ctx context.Context, ingesterID string) erro
 
 		if err := i.KVStore.CAS(ctx, i.RingKey, claimTokens); err != nil {
 			level.Error(i.logger).Log("msg", "Failed to write to the KV store", "ring", i.RingName, "err", err)
+			// Nothing was claimed: keep the tokens we already have instead of forgetting them.
+			errCh <- nil
+			return
 		}
 
 		i.setTokens(tokens)
